@@ -86,6 +86,7 @@ RANDOM_OPTS = {
     'script_ops': ['ret', 'fire', 'fire', 'fire', 'raise', 'stop', 'cancel', 'yield'], 'flags': [0, 0, 4, 4, 5], 'maxfire': 2,
     'maxops_script': 5, 'targets': [None, '*'], 'p_script': 0.9,
     'hist_ops': ['fire', 'fire', 'flush', 'tick', 'cancel'], 'histlen': (2, 6), 'ext_names': 2, 'p_attach': 1.0,
+    'p_feedback_ch': 0.3,
 }
 
 
